@@ -5,13 +5,8 @@
 From Coq Require Import String List Bool.
 From GV Require Import Lang.GlSyntax Lang.GlSem.
 From GVGen Require Import GenSemTests.
+From GV Require Import Oblig.SemRun.
 Import ListNotations.
-
-Definition passes (t : string * val) : bool :=
-  match run 20000 (App (Val (snd t)) (Val (LitV LitUnit))) with
-  | RVal (LitV (LitBool true)) _ => true
-  | _ => false
-  end.
 
 Example O01_goose_translated_semantics : goose_translated_semantics = true.
 Proof. vm_compute. reflexivity. Qed.
@@ -22,6 +17,3 @@ Proof. vm_compute. reflexivity. Qed.
 Example O01_semantics_suite_passes : forallb passes sem_tests = true.
 Proof. vm_compute. reflexivity. Qed.
 
-(* the upstream-documented failing tests, evaluated for the known-findings report *)
-Definition failing_now : list string :=
-  map fst (filter (fun t => negb (passes t)) failing_sem_tests).
